@@ -1295,6 +1295,17 @@ class Interp:
         return self.w.load_subscript(self, obj, key, node)
 
     def load_slice(self, obj, sl, env, node):
+        if isinstance(obj, Const) and isinstance(obj.v, (str, bytes)):
+            bounds = []
+            for x in (sl.lower, sl.upper, sl.step):
+                v = None if x is None else self.eval(x, env)
+                if v is not None and not (isinstance(v, Const) and (v.v is None or (isinstance(v.v, int) and not isinstance(v.v, bool)))):
+                    bounds = None
+                    break
+                bounds.append(None if v is None else v.v)
+            if bounds is not None:
+                r = self.w.load_slice(self, obj, sl, env, node) if hasattr(self.w, "slices_constant_text") else None
+                return r if r is not None else Const(obj.v[slice(*bounds)])
         if isinstance(obj, (ListObj, TupleV)) and not getattr(obj, "has_prefix", False):
             def bound(x):
                 if x is None:
